@@ -121,4 +121,10 @@ CLAIMED = {
               "Bounded: programs are sampled; schedules are exhaustive only up to 2 pre-emptions at transaction/blob-operation granularity."),
         note="operations of different goroutines on the same path or on a path and its ancestor are excluded from the serializability legs while known findings C15:ns:same / C15:ns:parent-child reproduce (operations are multi-transaction: needs a redesign); they remain in the free-running/race legs; a data race report is a violation whose schedule cannot be replayed",
     ),
+    "C09": dict(
+        technique="property-based testing with rapid over roots, volumes, conventions, names and constructed OS-path candidates; oracles computed by splitting/cleaning in the harness (round-trip and inverse relations); native coverage-guided fuzzing in the thorough tier",
+        text=("Through the verif hook both the Unix and the Windows convention are driven on Linux: valid names must map to volume + separator + root and name elements, invalid ones to ErrInvalid; ToOSPath/FromOSPath must round-trip; any absolute candidate FromOSPath accepts must be a valid FS path inside the root whose "
+              "forward image is the lexically cleaned candidate. A live leg exercises the exported functions of this host (relative paths refused). Thorough adds ~2M native fuzz executions."),
+        note="names or Sub directories containing a backslash or colon under the Windows convention have no exact OS spelling: ErrInvalid or 'inside the root' is accepted; OS error paths under Sub roots are checked by C05",
+    ),
 }
